@@ -37,16 +37,17 @@ var trustedBase = []string{
 
 func main() {
 	var (
-		property = flag.String("property", "", "property id (C01..C17) or 'all'")
-		tier     = flag.String("tier", "", "quick|thorough (default from VERIF_TIER or quick)")
-		repo     = flag.String("repo", "/repo", "repository to analyse")
-		verif    = flag.String("verif", "", "verification directory (default: parent of the executable's directory)")
-		overlay  = flag.String("overlay", "", "JSON file {path: content} applied as a source overlay (self-test corpus)")
-		onlyRule = flag.String("rule", "", "only report obligations whose key starts with this prefix (replay)")
-		noEv     = flag.Bool("no-evidence", false, "do not write evidence (used by the self-test corpus)")
-		list     = flag.Bool("list", false, "list properties")
-		dump     = flag.String("dump", "", "debug: print the SSA of Alias:func (e.g. 'S:(*Store).Put')")
-		selftest = flag.Bool("selftest", false, "developer command: run the sensitivity corpus (optionally only for -property or one variant id) and fail on disagreement")
+		property  = flag.String("property", "", "property id (C01..C17) or 'all'")
+		tier      = flag.String("tier", "", "quick|thorough (default from VERIF_TIER or quick)")
+		repo      = flag.String("repo", "/repo", "repository to analyse")
+		verif     = flag.String("verif", "", "verification directory (default: parent of the executable's directory)")
+		overlay   = flag.String("overlay", "", "JSON file {path: content} applied as a source overlay (self-test corpus)")
+		onlyRule  = flag.String("rule", "", "only report obligations whose key starts with this prefix (replay)")
+		noEv      = flag.Bool("no-evidence", false, "do not write evidence (used by the self-test corpus)")
+		list      = flag.Bool("list", false, "list properties")
+		dump      = flag.String("dump", "", "debug: print the SSA of Alias:func (e.g. 'S:(*Store).Put')")
+		dumpRoles = flag.String("dump-roles", "", "developer command: run every property and write the fingerprints of all function anchors to this file (tool/roles.json)")
+		selftest  = flag.Bool("selftest", false, "developer command: run the sensitivity corpus (optionally only for -property or one variant id) and fail on disagreement")
 	)
 	flag.Parse()
 	// go/packages resolves the go command through this process's PATH.
@@ -60,6 +61,28 @@ func main() {
 		}
 		sort.Strings(ids)
 		fmt.Println(strings.Join(ids, " "))
+		return
+	}
+	if *dumpRoles != "" {
+		e, err := Load(*repo, "", nil)
+		if err != nil {
+			fmt.Fprintln(os.Stderr, err)
+			os.Exit(2)
+		}
+		for id, spec := range props {
+			func() {
+				defer func() { recover() }()
+				spec.run(newReport(e, id))
+			}()
+		}
+		for _, a := range extraAnchors {
+			e.Func(a[0], a[1])
+		}
+		if err := e.dumpRoles(*dumpRoles); err != nil {
+			fmt.Fprintln(os.Stderr, err)
+			os.Exit(2)
+		}
+		fmt.Println("wrote", *dumpRoles, len(e.anchorLog), "anchors")
 		return
 	}
 	if *selftest {
